@@ -510,7 +510,7 @@ def shrink(case):
 
 def plan(tier):
   if tier == 'quick':
-    return {'batches': 48, 'timeout': 1500, 'histories': 10, 'enumerate_aborts': 1, 'abort_positions': 8, 'wall_budget_s': 240}
+    return {'batches': 48, 'timeout': 1500, 'histories': 10, 'enumerate_aborts': 1, 'abort_positions': 8, 'wall_budget_s': 420}
   return {'batches': 640, 'timeout': 1800, 'histories': 40, 'enumerate_aborts': 6, 'abort_positions': 14, 'wall_budget_s': 1500}
 
 
